@@ -1,6 +1,7 @@
 package main
 
 import (
+	"bytes"
 	"crypto/rsa"
 	"crypto/sha256"
 	"math/big"
@@ -99,13 +100,15 @@ func execKeys(c *ctx, in ev) []ev {
 	case "KeyId":
 		kind, name := gS(in, "kind"), gS(in, "name")
 		r := newRand(c.seed, "keyid-"+name)
-		out := ev{"op": "KeyId", "kind": kind, "name": name, "n": B(nil), "e": B(nil), "type": 0, "encap_eq": true}
+		out := ev{"op": "KeyId", "kind": kind, "name": name, "n": B(nil), "e": B(nil), "type": 0, "encap_eq": true, "copy_same": true}
 		var pub, keyID []byte
 		var trunc int
 		evs := []ev{}
 		switch kind {
 		case "t1":
 			iss := type1.NewBasicPrivateIssuer(p384Key(c.seed, name))
+			held := *iss // a copy by value taken the moment the constructor returned (methods have value receivers)
+			out["copy_same"] = bytes.Equal(held.TokenKeyID(), iss.TokenKeyID())
 			pub, _ = iss.TokenKey().MarshalBinary()
 			keyID = iss.TokenKeyID()
 			out["type"] = int(iss.Type())
@@ -116,6 +119,8 @@ func execKeys(c *ctx, in ev) []ev {
 			trunc = int(st.Request().TokenKeyID)
 		case "t5":
 			iss := type5.NewBatchedPrivateIssuer(ristrettoKey(c.seed, name))
+			held := *iss
+			out["copy_same"] = bytes.Equal(held.TokenKeyID(), iss.TokenKeyID())
 			pub, _ = iss.TokenKey().MarshalBinary()
 			keyID = iss.TokenKeyID()
 			out["type"] = int(iss.Type())
@@ -130,6 +135,8 @@ func execKeys(c *ctx, in ev) []ev {
 				key = &rsa.PrivateKey{PublicKey: rsa.PublicKey{N: key.N, E: int(new(big.Int).SetBytes(eo).Int64())}, D: key.D, Primes: key.Primes}
 			}
 			iss := type2.NewBasicPublicIssuer(key)
+			held := *iss
+			out["copy_same"] = bytes.Equal(held.TokenKeyID(), iss.TokenKeyID())
 			pub, _ = util.MarshalTokenKeyPSSOID(iss.TokenKey())
 			keyID = iss.TokenKeyID()
 			out["type"] = int(iss.Type())
